@@ -469,7 +469,134 @@ def rule_f(ctx: Ctx) -> None:
     ctx.min_instances("generator_f_strings", n, 1000)
 
 
-RULES = [rule_a, rule_b, rule_c, rule_d, rule_e, rule_f]
+# (function, normalised comparison) -> why the rendered operand cannot carry option-dependent text
+REVIEWED_RENDERED_TESTS: dict[tuple[str, str], str] = {
+    ("sqlglot.generators.singlestore:SingleStoreGenerator.datatype_sql", "type_name in self.dialect.INVERSE_VECTOR_TYPE_ALIASES"):
+        "only chooses between two spellings of the same element type (TINYINT / I8 ...): probed, SingleStore reads VECTOR(3, TINYINT /* c */) and VECTOR(3, I8) as equal trees",
+    ("sqlglot.generators.tsql:TSQLGenerator.queryoption_sql", "option in OPTIONS_THAT_REQUIRE_EQUAL"):
+        "only decides whether the optional `=` is printed: probed, the T-SQL parser reads OPTION(LABEL /* c */ 'x') and OPTION(LABEL = 'x') as equal trees",
+}
+
+PLAIN_STRING_ARGS = {
+    # argument keys that the parser fills with plain strings / keywords (never a node): self.sql(e, key) returns the string itself
+    "kind": "Create.kind / Select.kind / SetItem.kind / RecursiveWithSearch.kind are keyword strings set by the parser",
+    "position": "Trim.position is a keyword string (LEADING / TRAILING / BOTH)",
+}
+
+
+def _renders(e: ast.AST, clean_format_time: bool) -> str | None:
+    """How `e` renders a node with the generator's current options, or None."""
+    if not (isinstance(e, ast.Call) and isinstance(e.func, ast.Attribute) and isinstance(e.func.value, ast.Name) and e.func.value.id == "self"):
+        return None
+    name = e.func.attr
+    if name == "sql":
+        if any(k.arg == "comment" and isinstance(k.value, ast.Constant) and k.value.value is False for k in e.keywords):
+            return None
+        if len(e.args) >= 2 and isinstance(e.args[1], ast.Constant) and e.args[1].value in PLAIN_STRING_ARGS:
+            return None
+        return "self.sql(...)"
+    if name == "format_time":
+        return None if clean_format_time else "self.format_time(...)"
+    if name in ("func", "expressions", "binary", "function_fallback_sql") or name.endswith("_sql"):
+        return f"self.{name}(...)"
+    return None
+
+
+def rule_g(ctx: Ctx) -> None:
+    ctx.rule("C07.g", "no decision on rendered text: in generator code a value rendered from a node with the current options (self.sql(node) without comment=False, self.func, "
+                      "self.expressions, *_sql handlers, and format_time unless every format_time renders its format with comment=False) is never compared (==, !=, in, not in) "
+                      "with a constant or a class setting — the rendered text carries the node's comments (and quoting / case / line breaks chosen by the options), so the branch "
+                      "taken, and with it the structure of the output, would depend on comments=, identify=, pretty=")
+    repo = ctx.repo
+    # are all format_time methods clean?
+    ft_defs = [f for f in repo.all_funcs() if f.name == "format_time" and f.module.name.startswith(("sqlglot.generator", "sqlglot.generators."))]
+    ctx.require(bool(ft_defs), "anchor vanished: no Generator.format_time")
+    clean_ft = True
+    for f in ft_defs:
+        for c in walk_no_nested(f.node):
+            if isinstance(c, ast.Call) and norm(c.func) == "self.sql":
+                if not any(k.arg == "comment" and isinstance(k.value, ast.Constant) and k.value.value is False for k in c.keywords):
+                    clean_ft = False
+                    ctx.fail(f.module, c, f.key, c, f"`{norm(c, 70)}` renders the time format with its comments: the text is translated and then compared with the dialect's default "
+                                                     f"formats by the callers of format_time, so a comment on the format changes which function is generated")
+                else:
+                    ctx.ok(f"{f.key}|{norm(c, 60)}", None)
+    probe = ast.parse("def f(self, e):\n    base = self.sql(e)\n    if base in ('2', '10'):\n        return 1\n").body[0]
+    n = 0
+
+    def scan(fn: ast.AST, where: str, m: Module | None, record: bool) -> int:
+        hits = 0
+        tainted: dict[str, str] = {}
+        for st in ast.walk(fn):
+            if isinstance(st, ast.Assign) and len(st.targets) == 1 and isinstance(st.targets[0], ast.Name):
+                how = _renders(st.value, clean_ft)
+                if how:
+                    tainted.setdefault(st.targets[0].id, how)
+        for c in ast.walk(fn):
+            if not (isinstance(c, ast.Compare) and any(isinstance(op, (ast.Eq, ast.NotEq, ast.In, ast.NotIn)) for op in c.ops)):
+                continue
+            operands = [c.left] + list(c.comparators)
+            rendered = None
+            for o in operands:
+                how = _renders(o, clean_ft) or (tainted.get(o.id) if isinstance(o, ast.Name) else None)
+                if how:
+                    rendered = (o, how)
+            if rendered is None:
+                continue
+            others = [o for o in operands if o is not rendered[0]]
+
+            def fixed(o: ast.AST) -> bool:
+                if isinstance(o, ast.Constant):
+                    return o.value != ""  # comparison with "" is a truthiness test
+                if isinstance(o, (ast.Tuple, ast.Set, ast.List)):
+                    return all(fixed(x) or isinstance(x, ast.Attribute) for x in o.elts) and bool(o.elts)
+                if isinstance(o, ast.Attribute):
+                    return o.attr.isupper()
+                if isinstance(o, ast.Name):
+                    return o.id.isupper()
+                return False
+
+            if not any(fixed(o) for o in others):
+                continue
+            hits += 1
+            if record:
+                txt = norm(c, 90)
+                if (where, txt) in REVIEWED_RENDERED_TESTS:
+                    ctx.ok(f"{where}|{txt}", {"reviewed": REVIEWED_RENDERED_TESTS[(where, txt)]})
+                else:
+                    ctx.fail(m, c, where, c, f"`{txt}` branches on text rendered by {rendered[1]}: a comment attached to that node (or identify= / pretty=) changes the text and with it the "
+                                             f"branch taken, so the output's structure depends on a generator option; compare the node's own value (.name, .this) instead")
+        return hits
+
+    def scan_quoted(fn: ast.AST, where: str, m: Module | None) -> int:
+        """rendered SQL handed to escape_str: it ends up inside a string literal, whose content then depends on identify= / pretty= / comments="""
+        hits = 0
+        for c in ast.walk(fn):
+            if isinstance(c, ast.Call) and norm(c.func) == "self.escape_str" and c.args:
+                inner = next((x for x in ast.walk(c.args[0]) if _renders(x, True)), None)
+                if inner is not None:
+                    hits += 1
+                    if m is not None:
+                        ctx.fail(m, c, where, c, f"`{norm(c, 90)}` puts SQL rendered with the current options ({norm(inner, 40)}) inside a string literal: the literal's content — a value of "
+                                                 f"the tree that is parsed back — changes with identify= / pretty= / comments=")
+        return hits
+
+    ctx.require(scan(probe, "probe", None, False) == 1, "positive control failed: comparison of rendered text not recognised")
+    probe2 = ast.parse("def f(self, e):\n    return self.escape_str(e.name or self.sql(e))\n").body[0]
+    ctx.require(scan_quoted(probe2, "probe", None) == 1, "positive control failed: rendered SQL inside escape_str not recognised")
+    for f in repo.all_funcs():
+        m = f.module
+        if not (m.name.startswith(("sqlglot.generator", "sqlglot.generators.")) or (m.name == "sqlglot.dialects.dialect" and f.params[:1] == ["self"])):
+            continue
+        n += 1
+        before = len(ctx.findings) if hasattr(ctx, "findings") else 0
+        scan(f.node, f.key, m, True)
+        scan_quoted(f.node, f.key, m)
+    ctx.count("generator_functions_scanned", n)
+    ctx.min_instances("generator_functions_scanned", n, 800)
+
+
+RULES = [rule_a, rule_b, rule_c, rule_d, rule_e, rule_f, rule_g]
 EXPLANATION = (
     "Pairing and confinement rules on the generator: the sentinel's single guarded insertion/removal pair with "
     "post-domination of generate()'s returns and delegation of overrides, injectivity of the substitution, flow of "
